@@ -293,6 +293,9 @@ def parse_response(raw: bytes) -> Resp:
                     r.data = p.plist()
                     if not p.at_crlf():
                         raise SyntaxErr("junk after FETCH list")
+                    for k, v in zip(r.data[0::2], r.data[1::2]):
+                        if isinstance(k, Atom) and str(k).upper() == "UID" and not str(v).isdigit():
+                            raise SyntaxErr("FETCH UID is not a number")  # RFC 3501: "UID" SP uniqueid
                 else:
                     raise SyntaxErr(f"unknown numeric response {r.typ}")
                 return r
@@ -359,6 +362,8 @@ def fetch_items(r: Resp) -> dict:
         if not isinstance(k, Atom):
             raise SyntaxErr(f"FETCH item name is not an atom: {k!r}")
         d[str(k).upper()] = v
+    if "UID" in d and not str(d["UID"]).isdigit():
+        d["UID-INVALID"] = d.pop("UID")  # reported through Resp.errors by parse_response
     return d
 
 
